@@ -35,6 +35,7 @@ import (
 	"go.uber.org/zap"
 
 	"github.com/mimiro-io/datahub/internal/conf"
+	"github.com/mimiro-io/datahub/internal/verifhook"
 )
 
 type qresult struct {
@@ -257,9 +258,12 @@ func (namespaceManager *NamespaceManager) ExpandCurie(curie string) (string, err
 	}
 	prefix := curie[:splitOffset]
 	postfix := curie[splitOffset+1:]
+	verifhook.Acquire(namespaceManager.store.database, "ns.lock", namespaceManager)
 	namespaceManager.lock.Lock()
+	verifhook.Access(namespaceManager.store.database, "ns.maps", false)
 	expansion, ok := namespaceManager.prefixToExpansionMapping[prefix]
 	namespaceManager.lock.Unlock()
+	verifhook.Release(namespaceManager.store.database, "ns.lock", namespaceManager)
 	if ok {
 		return expansion + postfix, nil
 	}
@@ -267,9 +271,12 @@ func (namespaceManager *NamespaceManager) ExpandCurie(curie string) (string, err
 }
 
 func (namespaceManager *NamespaceManager) GetPrefixMappingForExpansion(uriExpansion string) (string, error) {
+	verifhook.Acquire(namespaceManager.store.database, "ns.lock", namespaceManager)
 	namespaceManager.lock.Lock()
+	verifhook.Access(namespaceManager.store.database, "ns.maps", false)
 	prefix, ok := namespaceManager.expansionToPrefixMapping[uriExpansion]
 	namespaceManager.lock.Unlock()
+	verifhook.Release(namespaceManager.store.database, "ns.lock", namespaceManager)
 	if ok {
 		return prefix, nil
 	}
@@ -277,18 +284,23 @@ func (namespaceManager *NamespaceManager) GetPrefixMappingForExpansion(uriExpans
 }
 
 func (namespaceManager *NamespaceManager) GetPrefixToExpansionMap() (result map[string]string) {
+	verifhook.Acquire(namespaceManager.store.database, "ns.lock", namespaceManager)
 	namespaceManager.lock.Lock()
 	result = namespaceManager.prefixToExpansionMapping
 	namespaceManager.lock.Unlock()
+	verifhook.Release(namespaceManager.store.database, "ns.lock", namespaceManager)
 	return
 }
 
 func (namespaceManager *NamespaceManager) AssertPrefixMappingForExpansion(uriExpansion string) (string, error) {
+	verifhook.Acquire(namespaceManager.store.database, "ns.lock", namespaceManager)
 	namespaceManager.lock.Lock()
+	defer verifhook.Release(namespaceManager.store.database, "ns.lock", namespaceManager)
 	defer namespaceManager.lock.Unlock()
 
 	prefix := namespaceManager.expansionToPrefixMapping[uriExpansion]
 	if prefix == "" {
+		verifhook.Access(namespaceManager.store.database, "ns.maps", true)
 		prefix = "ns" + strconv.Itoa(len(namespaceManager.prefixToExpansionMapping))
 		namespaceManager.prefixToExpansionMapping[prefix] = uriExpansion
 		namespaceManager.expansionToPrefixMapping[uriExpansion] = prefix
@@ -427,6 +439,7 @@ func (s *Store) GetGlobalContext(strict bool) *Context {
 	}
 	// TODO: consider caching this. Currently GetGlobalContext is only called once per request so it's not called too often
 	filterdCtx := &Context{ID: "@context", Namespaces: make(map[string]string)}
+	verifhook.Access(s.database, "ns.maps", false)
 	for prefix, expansion := range completeCtx.Namespaces {
 		if strings.HasSuffix(expansion, "#") || strings.HasSuffix(expansion, "/") {
 			filterdCtx.Namespaces[prefix] = expansion
@@ -1698,8 +1711,10 @@ func (s *Store) ExecuteTransaction(transaction *Transaction) error {
 		datasets[k] = dataset.(*Dataset)
 		s.MetaCtx.RegisterTransactionSink(k)
 
+		verifhook.Acquire(s.database, "dataset.write", dataset.(*Dataset))
 		dataset.(*Dataset).WriteLock.Lock()
 		// release lock at end regardless
+		defer verifhook.Release(s.database, "dataset.write", dataset.(*Dataset))
 		defer dataset.(*Dataset).WriteLock.Unlock()
 	}
 
@@ -1719,15 +1734,21 @@ func (s *Store) ExecuteTransaction(transaction *Transaction) error {
 		updateCountsPerDataset[k] = newItems
 	}
 
+	verifhook.Point(s.database, "ExecuteTransaction.beforeIDCommit")
 	err := s.commitIDTxn()
 	if err != nil {
 		return err
+	}
+	verifhook.Point(s.database, "ExecuteTransaction.afterIDCommit")
+	if ferr := verifhook.Fault(s.database, "ExecuteTransaction.dataCommit"); ferr != nil {
+		return ferr
 	}
 
 	err = txn.Commit()
 	if err != nil {
 		return err
 	}
+	verifhook.Point(s.database, "ExecuteTransaction.afterDataCommit")
 
 	// update the txn counts
 	for k, v := range updateCountsPerDataset {
@@ -1741,6 +1762,7 @@ func (s *Store) ExecuteTransaction(transaction *Transaction) error {
 			return err
 		}
 	}
+	verifhook.Point(s.database, "ExecuteTransaction.afterUpdateDataset")
 
 	return nil
 }
